@@ -25,54 +25,168 @@ LEVEL = "exploration"
 M_QUICK, M_THOROUGH = 6, 8
 
 
-def true_series(c, M: int, args) -> Any:
-    """sum_{n<=M} sum_params count * arg0^n * prod arg_j^{p_j} with the actual arguments."""
+class Series:
+    """Truncated power series in x whose coefficients are expressions in the statistic
+    variables: coefficients are exact for every degree <= prec."""
+
+    def __init__(self, coeffs: Dict[int, Any], prec: int):
+        self.c = {d: v for d, v in coeffs.items() if d <= prec and v != 0}
+        self.prec = prec
+
+    def val(self) -> int:
+        return min(self.c) if self.c else self.prec + 1
+
+    @staticmethod
+    def const(v, M: int) -> "Series":
+        return Series({0: v}, M)
+
+    def add(self, o: "Series") -> "Series":
+        import sympy
+
+        p = min(self.prec, o.prec)
+        out: Dict[int, Any] = {}
+        for d in set(self.c) | set(o.c):
+            if d <= p:
+                out[d] = sympy.expand(self.c.get(d, 0) + o.c.get(d, 0))
+        return Series(out, p)
+
+    def neg(self) -> "Series":
+        return Series({d: -v for d, v in self.c.items()}, self.prec)
+
+    def mul(self, o: "Series", M: int) -> "Series":
+        import sympy
+
+        p = min(self.prec + o.val(), o.prec + self.val(), M)
+        out: Dict[int, Any] = {}
+        for d1, v1 in self.c.items():
+            for d2, v2 in o.c.items():
+                if d1 + d2 <= p:
+                    out[d1 + d2] = out.get(d1 + d2, 0) + v1 * v2
+        return Series({d: sympy.expand(v) for d, v in out.items()}, p)
+
+    def inv(self, M: int) -> "Series":
+        """1 / self for a series whose lowest coefficient is invertible; the result starts at
+        x^(-val), which the caller absorbs by shifting (see div)."""
+        raise NotImplementedError
+
+    def div(self, o: "Series", M: int) -> "Series":
+        import sympy
+
+        v = o.val()
+        if v > o.prec:
+            raise ZeroDivisionError("division by a series that vanishes within the known precision")
+        if self.val() < v and self.c:
+            raise ZeroDivisionError("the quotient has a pole at x = 0")
+        # shift both by x^v
+        a = Series({d - v: c for d, c in self.c.items()}, self.prec - v)
+        u = Series({d - v: c for d, c in o.c.items()}, o.prec - v)
+        u0 = u.c[0]
+        # inverse of the unit u by the usual recurrence
+        p = u.prec
+        inv: Dict[int, Any] = {0: sympy.cancel(1 / u0)}
+        for d in range(1, p + 1):
+            acc = 0
+            for j in range(1, d + 1):
+                if j in u.c and (d - j) in inv:
+                    acc += u.c[j] * inv[d - j]
+            inv[d] = sympy.cancel(-acc / u0)
+        return a.mul(Series(inv, p), M)
+
+
+def true_series(c, M: int, args) -> "Series":
+    """sum_{n<=M} x^n sum_params count * prod arg_j^{p_j} with the actual (x-free) arguments."""
     import sympy
 
     terms_of = domain_fns(c)[0]
-    res = sympy.Integer(0)
+    coeffs: Dict[int, Any] = {}
     for n in range(M + 1):
+        tot = sympy.Integer(0)
         for params, cnt in terms_of(c, n).items():
             if not cnt:
                 continue
-            t = sympy.Integer(cnt) * args[0] ** n
+            t = sympy.Integer(cnt)
             for a, p in zip(args[1:], params):
                 t *= a ** p
-            res += t
-    return res
+            tot += t
+        if tot != 0:
+            coeffs[n] = sympy.expand(tot)
+    return Series(coeffs, M)
 
 
-def equation_problem(spec, eq, M: int) -> Optional[str]:
+def evaluate(expr, spec, M: int) -> "Series":
+    """The expression as a truncated power series, every F_i(x, ...) replaced by the true series."""
     import sympy
 
     x = sympy.var("x")
-    expr = eq.lhs - eq.rhs
-    subs = {}
-    for f in expr.atoms(sympy.core.function.AppliedUndef):
-        name = f.func.__name__
+    if expr == x:
+        return Series({1: sympy.Integer(1)}, M)
+    if expr.is_Number:
+        return Series.const(expr, M)
+    if expr.is_Symbol:
+        return Series.const(expr, M)
+    if isinstance(expr, sympy.core.function.AppliedUndef):
+        name = expr.func.__name__
         if name == "NOTIMPLEMENTED":
-            return "skip"
+            raise NotImplementedError
         if not name.startswith("F_"):
-            return f"unknown function {name}"
-        label = int(name[2:])
-        c = spec.get_comb_class(label)
-        if len(f.args) != 1 + len(c.extra_parameters):
-            return f"{f} has {len(f.args)} arguments, class {c.sid()} has {len(c.extra_parameters)} statistics"
-        if f.args[0] != x:
-            return f"{f}: first argument is not x"
-        subs[f] = true_series(c, M, f.args)
-    e = expr.subs(subs, simultaneous=True)
-    num, den = sympy.fraction(sympy.together(e))
-    num = sympy.expand(num)
-    if num == 0:
-        return None
-    poly = sympy.Poly(num, x)
-    # if the denominator vanishes at x = 0 the truncation order of the numerator shifts
-    dpoly = sympy.Poly(sympy.expand(den), x)
-    low_den = min(m[0] for m in dpoly.monoms())
-    for (deg,), coeff in poly.terms():
-        if deg <= M + low_den and sympy.expand(coeff) != 0:
-            return f"coefficient of x^{deg} of lhs - rhs is {sympy.factor(coeff)}"
+            raise ValueError(f"unknown function {name}")
+        c = spec.get_comb_class(int(name[2:]))
+        if len(expr.args) != 1 + len(c.extra_parameters):
+            raise ValueError(f"{expr} has {len(expr.args)} arguments, class {c.sid()} has {len(c.extra_parameters)} statistics")
+        if expr.args[0] != x or any(a.has(x) for a in expr.args[1:]):
+            raise ValueError(f"{expr}: unexpected arguments")
+        return true_series(c, M, expr.args)
+    if expr.is_Add:
+        res = Series({}, M)
+        for a in expr.args:
+            res = res.add(evaluate(a, spec, M))
+        return res
+    if expr.is_Mul:
+        num = Series.const(sympy.Integer(1), M)
+        dens = []
+        for a in expr.args:
+            if a.is_Pow and a.exp.is_Integer and a.exp < 0:
+                base = evaluate(a.base, spec, M)
+                for _ in range(-int(a.exp)):
+                    dens.append(base)
+            else:
+                num = num.mul(evaluate(a, spec, M), M)
+        for dn in dens:
+            num = num.div(dn, M)
+        return num
+    if expr.is_Pow and expr.exp.is_Integer:
+        base = evaluate(expr.base, spec, M)
+        if expr.exp >= 0:
+            res = Series.const(sympy.Integer(1), M)
+            for _ in range(int(expr.exp)):
+                res = res.mul(base, M)
+            return res
+        res = Series.const(sympy.Integer(1), M)
+        for _ in range(-int(expr.exp)):
+            res = res.div(base, M)
+        return res
+    raise ValueError(f"cannot evaluate {expr} ({type(expr).__name__})")
+
+
+def equation_problem(spec, eq, M: int) -> Optional[str]:
+    """None if the equation holds coefficient by coefficient as far as the substituted true
+    series determine both sides (precision is tracked through products and quotients)."""
+    import sympy
+
+    try:
+        lhs = evaluate(eq.lhs, spec, M)
+        rhs = evaluate(eq.rhs, spec, M)
+    except NotImplementedError:
+        return "skip"
+    except (ValueError, ZeroDivisionError) as e:
+        return str(e)
+    prec = min(lhs.prec, rhs.prec)
+    if prec < max(2, M - 3):
+        return f"precision {prec} after evaluating the right-hand side is too low to judge"
+    for d in range(prec + 1):
+        diff = sympy.expand(lhs.c.get(d, 0) - rhs.c.get(d, 0))
+        if diff != 0:
+            return f"coefficient of x^{d}: lhs {lhs.c.get(d, 0)}, rhs {sympy.factor(rhs.c.get(d, 0))}"
     return None
 
 
